@@ -229,6 +229,9 @@ func genStructuredTag(c *core.Ctx) (string, structured) {
 	}
 	tag := st.val
 	for _, a := range st.args {
+		if c.Rng.Intn(8) == 0 {
+			tag += "," // an empty segment (two commas in a row) is no argument and hides none of the following ones
+		}
 		if a.items == nil {
 			tag += "," + a.name
 		} else {
